@@ -950,9 +950,13 @@ def _op2_checks(sh, o, f, blocks, expect, enc, case, tags, viol, r, heavy):
         # named subset == filtered full read
         sh.count("mon:op2-subset")
         pick = [uniq[int(k)] for k in sorted(set(r.integers(0, len(uniq), 2).tolist()))]
+        pref = [u for u in uniq if any(v != u and v.startswith(u) for v in uniq)]
+        if pref and r.random() < 0.7:
+            pick = [pref[0]]                      # exact name that prefixes another one
+            sh.count("cell:op2-subset-exact-name-is-prefix")
         arg = [p.lower() if r.random() < 0.5 else p for p in pick]
         wild = None
-        if r.random() < 0.5:
+        if r.random() < 0.5 and not (pref and pick == [pref[0]]):
             wild = pick[0][:max(1, len(pick[0]) - 1)]
             arg = [wild + "*"] + arg[1:]
         res = o.rdop2mats(names=arg)
@@ -993,6 +997,15 @@ def _op2_shard(sh, params):
         if nb > 1 and r.random() < 0.3:           # common prefix for the wildcard
             for b in blocks[:2]:
                 b["name"] = ("KX" + b["name"])[:8]
+        if nb > 1 and r.random() < 0.3:
+            # one name a proper prefix of another (KAA / KAAX): an exact name in a name
+            # list must select that block only
+            short = blocks[0]["name"][:6]
+            blocks[0]["name"] = short
+            for b in blocks[1:]:
+                if b["kind"] == blocks[0]["kind"]:
+                    b["name"] = short + "X"
+                    break
         for k in range(params.get("nenc", 12)):
             rr = core.rng(sh.seed, "C11", "op2", s, li, k)
             enc = {"bit64": bool(k % 2), "endian": "<>"[(k // 2) % 2],
